@@ -15,7 +15,7 @@ def main():
         checks.append({
             "property_id": pid,
             "quick_cmd": f"./check {pid} --tier quick",
-            "thorough_cmd": f"./check {pid} --tier thorough",
+            **({} if m.get("no_thorough") else {"thorough_cmd": f"./check {pid} --tier thorough"}),
             "evidence_file": f"/verif/evidence/{pid}.json",
             "replay_cmd_template": f"./check {pid} --replay {{path}}",
             "engine": "lean4-proof+correspondence",
